@@ -585,33 +585,3 @@ fn c01_argp_string_s1_le() {
 fn c01_argp_string_s0_be() {
     string_parse_case::<0, 8>(true);
 }
-
-/// string argument WITH variable info: length, name length (incl. NUL), name ++ NUL, content
-#[kani::proof]
-#[kani::stub(alloc::fmt::format, fmt_stub)]
-#[kani::unwind(18)]
-fn c01_argp_string_vari_be() {
-    let w: u32 = TI_STRG | TI_VARI | (1 << TI_SCOD_SHIFT);
-    let wb = w.to_be_bytes();
-    let c: [u8; 2] = kani::any();
-    let nm: [u8; 1] = kani::any();
-    kani::assume(nm[0] != 0 && nm[0] < 0x80);
-    let tail: [u8; 2] = kani::any();
-    // type info, content length 2, name length 2 (one byte + NUL), name, NUL, content, tail
-    let buf: [u8; 14] = [wb[0], wb[1], wb[2], wb[3], 0, 2, 0, 2, nm[0], 0, c[0], c[1], tail[0], tail[1]];
-    match dlt_argument::<BigEndian>(&buf) {
-        Ok((rest, a)) => {
-            assert!(bytes_eq(rest, &tail));
-            assert!(a.type_info.has_variable_info && a.unit.is_none());
-            match (&a.name, &a.value) {
-                (Some(n), Value::StringVal(s)) => {
-                    assert!(n.len() == 1 && n.as_bytes()[0] == nm[0]);
-                    let k = ref_text(&c);
-                    assert!(s.len() == k && bytes_eq(s.as_bytes(), &c[..k]));
-                }
-                _ => { assert!(false); }
-            }
-        }
-        Err(_) => { assert!(false); }
-    }
-}
